@@ -746,4 +746,274 @@ theorem simulate_all_equations_hold_current [CharZero K] [LawfulExpLog K]
 example : ([1, 2] : List Int).Pairwise (· < ·) ∧ AllSelfOK [(wEq : Equation ℚ)] ∧ DistinctWrites [(wEq : Equation ℚ)]
     ∧ DatesEquationsCond [(wEq : Equation ℚ)] [1, 2] ∧ EquationsDatesCond [(wEq : Equation ℚ)] [1, 2] := by decide
 
+/-! ## 9. The extent of the data array -/
+
+/-- **Every read lands inside the data array.**  With `nPre = −max_lag` columns before and `nPost = max_lead` columns after the
+`nPer` simulated ones (what the Dataslate allocates), every cell an equation reads at a simulated column — right-hand side,
+transform lag, residual — has a column in `[0, nPre + nPer + nPost)`; in particular no lag wraps around to the end of the
+array (numpy's negative indexing) and no lead runs off it. -/
+theorem reads_inside_array {β : Type} (eqs : List (Equation β)) (nPer : Nat) (eq : Equation β) (h : eq ∈ eqs)
+    (t : Int) (ht : (nPreOf eqs : Int) ≤ t ∧ t < nPreOf eqs + nPer) :
+    ∀ c ∈ eq.deps t, 0 ≤ c.2 ∧ c.2 < (nPreOf eqs + nPer + nPostOf eqs : Nat) := by
+  intro c hc
+  rw [Equation.deps_eq_map] at hc
+  obtain ⟨tok, htok, rfl⟩ := List.mem_map.mp hc
+  obtain ⟨h1, h2⟩ := minShift_le eqs eq h tok htok
+  obtain ⟨h3, h4⟩ := le_maxShift eqs eq h tok htok
+  unfold nPreOf nPostOf at *
+  simp only
+  omega
+
+/-- the LHS cell itself too -/
+theorem lhs_inside_array {β : Type} (eqs : List (Equation β)) (nPer : Nat)
+    (t : Int) (ht : (nPreOf eqs : Int) ≤ t ∧ t < nPreOf eqs + nPer) :
+    0 ≤ t ∧ t < (nPreOf eqs + nPer + nPostOf eqs : Nat) := by
+  omega
+
+/-- non-vacuity: `x = 0.5*x[-1] + res` has one pre-sample column and no post-sample column -/
+example : nPreOf [(wEq : Equation ℚ)] = 1 ∧ nPostOf [(wEq : Equation ℚ)] = 0 := by decide
+
+/-! ## 10. Plan transforms at every shift -/
+
+/-- `values_before[self._shift]` with `values_before = data[row, :t]`: for EVERY shift `k ≤ −1` that stays inside the array the
+lag is the cell `|k|` columns back — not only for the default `−1` -/
+theorem planLagColumn_neg (p : PlanPoint) (t : Int) (hk : p.shift ≤ -1) (ht : 0 ≤ t + p.shift) :
+    planLagColumn p t = some (t + p.shift) := by
+  unfold planLagColumn pyIndex
+  have h1 : ¬ (0 ≤ p.shift ∧ p.shift < t) := by omega
+  have h2 : -t ≤ p.shift ∧ p.shift < 0 := by omega
+  simp [h1, h2]
+
+/-- ... and a shift that reaches before the first column is an error (Python `IndexError`), never a wrap-around -/
+theorem planLagColumn_out (p : PlanPoint) (t : Int) (ht0 : 0 ≤ t) (hk : p.shift ≤ -1) (ht : t + p.shift < 0) :
+    planLagColumn p t = none := by
+  unfold planLagColumn pyIndex
+  have h1 : ¬ (0 ≤ p.shift ∧ p.shift < t) := by omega
+  have h2 : ¬ (-t ≤ p.shift ∧ p.shift < 0) := by omega
+  simp [h1, h2]
+
+theorem planLagColumn_eq (p : PlanPoint) (t c : Int) (hk : p.shift ≤ -1) (h : planLagColumn p t = some c) :
+    c = t + p.shift := by
+  unfold planLagColumn pyIndex at h
+  have h1 : ¬ (0 ≤ p.shift ∧ p.shift < t) := by omega
+  simp only [h1, if_false] at h
+  split at h
+  · injection h with h; omega
+  · cases h
+
+/-- what `_detect_exogenized` computed when it returns a value: the target read at column `t` (when the transform uses one)
+and the lag read `|shift|` columns back (when it uses one) -/
+theorem detectExogenized_ok (tbl : Table K) (lhsRow : Nat) (p : PlanPoint) (t : Int) (w : V K) (hk : p.shift ≤ -1)
+    (h : detectExogenized tbl lhsRow p t = .ok (some w)) :
+    ∃ target lag : V K, (p.kind.usesTarget = true → ∃ r, p.target = some r ∧ target = tbl r t)
+      ∧ (p.kind.usesLag = true → lag = tbl lhsRow (t + p.shift))
+      ∧ w = p.kind.implied target lag := by
+  have fin : ∀ (c : Bool) (x : V K), (if c = true then (Except.ok none : Except Err (Option (V K))) else Except.ok (some x))
+      = Except.ok (some w) → w = x := by
+    intro c x hx
+    cases c <;> simp at hx
+    exact hx.symm
+  unfold detectExogenized at h
+  simp only [bind, Except.bind, pure, Except.pure] at h
+  by_cases hT : p.kind.usesTarget = true
+  · cases hr : p.target with
+    | none => simp [hT, hr] at h
+    | some r =>
+      by_cases hL : p.kind.usesLag = true
+      · cases hc : planLagColumn p t with
+        | none => simp [hT, hr, hL, hc] at h
+        | some c =>
+          have := planLagColumn_eq p t c hk hc
+          subst this
+          simp only [hT, hr, hL, hc, if_true] at h
+          exact ⟨tbl r t, tbl lhsRow (t + p.shift), fun _ => ⟨r, rfl, rfl⟩, fun _ => rfl, fin _ _ h⟩
+      · simp only [hT, hr, hL, if_true] at h
+        exact ⟨tbl r t, V.nan, fun _ => ⟨r, rfl, rfl⟩, fun h' => absurd h' hL, fin _ _ h⟩
+  · by_cases hL : p.kind.usesLag = true
+    · cases hc : planLagColumn p t with
+      | none => simp [hT, hL, hc] at h
+      | some c =>
+        have := planLagColumn_eq p t c hk hc
+        subst this
+        simp only [hT, hL, hc, if_true] at h
+        exact ⟨V.nan, tbl lhsRow (t + p.shift), fun h' => absurd h' hT, fun _ => rfl, fin _ _ h⟩
+    · simp only [hT, hL] at h
+      exact ⟨V.nan, V.nan, fun h' => absurd h' hT, fun h' => absurd h' hL, fin _ _ h⟩
+
+/-- **`_detect_exogenized` for every transform and every shift `k ≤ −1`**: when it decides to exogenize at a number `v`, the
+documented meaning of the transform — taken between `v` and the LHS value `|k|` columns back, `data[lhs, t+k]` — is the target
+read at column `t` (side conditions as in `plan_*`; `flat`: the difference to the lag is 0). -/
+theorem detectExogenized_hits_target [CharZero K] [LawfulExpLog K] (tbl : Table K) (lhsRow : Nat) (p : PlanPoint)
+    (t : Int) (v : K) (hk : p.shift ≤ -1)
+    (h : detectExogenized tbl lhsRow p t = .ok (some (V.fin v)))
+    (hd : match p.kind with
+      | .roc => tbl lhsRow (t + p.shift) ≠ V.fin 0
+      | .pct => tbl lhsRow (t + p.shift) ≠ V.fin 0
+      | .diffLog => ∃ l ll : K, tbl lhsRow (t + p.shift) = V.fin l ∧ UnaryFns.fn? 1 l = some ll
+      | _ => True) :
+    ∃ target : V K, (p.kind.usesTarget = true → ∃ r, p.target = some r ∧ target = tbl r t) ∧
+      planMeaning p.kind (V.fin v) (tbl lhsRow (t + p.shift)) = (if p.kind = .flat then V.fin 0 else target) := by
+  obtain ⟨target, lag, hT, hL, hw⟩ := detectExogenized_ok tbl lhsRow p t (V.fin v) hk h
+  refine ⟨target, hT, ?_⟩
+  cases hkind : p.kind with
+  | none =>
+    rw [hkind] at hw
+    have : V.fin v = target := hw
+    simpa [planMeaning] using this
+  | log =>
+    rw [hkind] at hw
+    have hw' : PlanT.implied .log target (tbl lhsRow (t + p.shift)) = V.fin v := hw.symm
+    simpa using plan_log target (tbl lhsRow (t + p.shift)) v hw'
+  | diff =>
+    rw [hkind] at hw hL
+    have hl := hL (by decide)
+    subst hl
+    obtain ⟨l, d, hl', rfl⟩ := V.add_eq_fin (by simpa [PlanT.implied, Explanatory.plan_Diff] using hw.symm)
+    rw [hl'] at hw ⊢
+    have := plan_diff d l
+    rw [← hw] at this
+    simpa using this
+  | diffLog =>
+    rw [hkind] at hw hL hd
+    have hl := hL (by decide)
+    subst hl
+    obtain ⟨l, ll, hl', hll⟩ := hd
+    rw [hl'] at hw ⊢
+    simpa using plan_diff_log target l v ll hll hw.symm
+  | roc =>
+    rw [hkind] at hw hL hd
+    have hl := hL (by decide)
+    subst hl
+    obtain ⟨l, d, hl', rfl⟩ := V.mul_eq_fin (by simpa [PlanT.implied, Explanatory.plan_Roc] using hw.symm)
+    rw [hl'] at hw hd ⊢
+    have hl0 : l ≠ 0 := fun h0 => hd (by rw [h0])
+    have := plan_roc d l hl0
+    rw [← hw] at this
+    simpa using this
+  | pct =>
+    rw [hkind] at hw hL hd
+    have hl := hL (by decide)
+    subst hl
+    obtain ⟨l, x, hl', hx⟩ := V.mul_eq_fin (by simpa [PlanT.implied, Explanatory.plan_Pct] using hw.symm)
+    obtain ⟨_, y, _, hy⟩ := V.add_eq_fin hx
+    obtain ⟨d, _, rfl, _⟩ := V.div_eq_fin hy
+    rw [hl'] at hw hd ⊢
+    have hl0 : l ≠ 0 := fun h0 => hd (by rw [h0])
+    have := plan_pct d l hl0
+    rw [← hw] at this
+    simpa using this
+  | flat =>
+    rw [hkind] at hw hL
+    have hl := hL (by decide)
+    subst hl
+    have : V.fin v = tbl lhsRow (t + p.shift) := by simpa [PlanT.implied, Explanatory.plan_Flat] using hw
+    rw [← this]
+    simp [planMeaning]
+
+
+/-- non-vacuity: a `diff` point with shift −2 at column 3: the lag is read at column 1 -/
+example [CharZero K] :
+    detectExogenized (fun r c => if r = 0 ∧ c = 1 then V.fin (4 : K) else if r = 2 ∧ c = 3 then V.fin (1/2) else V.nan)
+      0 ⟨.diff, false, -2, some 2⟩ 3 = .ok (some (V.fin (4 + 1/2))) := by
+  simp [detectExogenized, planLagColumn, pyIndex, PlanT.usesTarget, PlanT.usesLag, PlanT.implied, Explanatory.plan_Diff,
+    Explanatory.planUsesTarget_Diff, Explanatory.planUsesLag_Diff, bind, Except.bind, pure, Except.pure, V.isNan]
+
+/-! ## 11. The order conditions are necessary (LHS part) -/
+
+section converse
+variable {β : Type}
+
+/-- the part of `DatesEquationsCond` that concerns LHS rows (written at every step, whatever the plan) -/
+def DatesEquationsCondLhs (eqs : List (Equation β)) (cols : List Int) : Prop :=
+  ∀ p ∈ eqs.zipIdx, ∀ q ∈ eqs.zipIdx, ∀ tok ∈ p.1.depTokens, tok.1 = q.1.lhs →
+    ∀ t ∈ cols, t + tok.2 ∈ cols → (tok.2 < 0 ∨ (tok.2 = 0 ∧ q.2 ≤ p.2))
+
+/-- the part of `EquationsDatesCond` that concerns LHS rows -/
+def EquationsDatesCondLhs (eqs : List (Equation β)) (cols : List Int) : Prop :=
+  ∀ p ∈ eqs.zipIdx, ∀ q ∈ eqs.zipIdx, ∀ tok ∈ p.1.depTokens, tok.1 = q.1.lhs →
+    ∀ t ∈ cols, t + tok.2 ∈ cols → (q.2 < p.2 ∨ (q.2 = p.2 ∧ tok.2 ≤ 0))
+
+/-- **Converse for dates×equations.**  If the `dates_equations` schedule is `Admissible` (for whatever plan), the model text
+satisfies the closed-form condition on LHS rows: inside the span an LHS is read only at a lag, or in the same period from an
+equation that is not later.  (For residual rows the condition is necessary only where the plan has a point — the residual is
+not written elsewhere — so the full `DatesEquationsCond` is sufficient but not necessary.) -/
+theorem datesEquations_cond_necessary (eqs : List (Equation β)) (plan : Plan) (cols : List Int)
+    (hcols : cols.Pairwise (· < ·)) (h : Admissible eqs plan (datesEquations cols eqs.length)) :
+    DatesEquationsCondLhs eqs cols := by
+  intro p hp q hq tok htok hrow t ht ht'
+  have hei := List.mem_zipIdx_iff_getElem?.mp hp
+  have hej := List.mem_zipIdx_iff_getElem?.mp hq
+  have hi : p.2 < eqs.length := (List.getElem?_eq_some_iff.mp hei).1
+  have hj : q.2 < eqs.length := (List.getElem?_eq_some_iff.mp hej).1
+  by_cases hgood : tok.2 < 0 ∨ (tok.2 = 0 ∧ q.2 ≤ p.2)
+  · exact hgood
+  · exfalso
+    have hord : t < t + tok.2 ∨ (t = t + tok.2 ∧ p.2 < q.2) := by omega
+    exact clobber_of_token eqs plan p.2 q.2 p.1 q.1 t tok hei hej htok hrow
+      (of_pairwise_datesEquations _ cols _ hcols h.2 t ht (t + tok.2) ht' p.2 q.2 hi hj hord)
+
+/-- **Converse for equations×dates.** -/
+theorem equationsDates_cond_necessary (eqs : List (Equation β)) (plan : Plan) (cols : List Int)
+    (hcols : cols.Pairwise (· < ·)) (h : Admissible eqs plan (equationsDates cols eqs.length)) :
+    EquationsDatesCondLhs eqs cols := by
+  intro p hp q hq tok htok hrow t ht ht'
+  have hei := List.mem_zipIdx_iff_getElem?.mp hp
+  have hej := List.mem_zipIdx_iff_getElem?.mp hq
+  have hi : p.2 < eqs.length := (List.getElem?_eq_some_iff.mp hei).1
+  have hj : q.2 < eqs.length := (List.getElem?_eq_some_iff.mp hej).1
+  by_cases hgood : q.2 < p.2 ∨ (q.2 = p.2 ∧ tok.2 ≤ 0)
+  · exact hgood
+  · exfalso
+    have hord : p.2 < q.2 ∨ (p.2 = q.2 ∧ t < t + tok.2) := by omega
+    exact clobber_of_token eqs plan p.2 q.2 p.1 q.1 t tok hei hej htok hrow
+      (of_pairwise_equationsDates _ cols _ hcols h.2 t ht (t + tok.2) ht' p.2 q.2 hi hj hord)
+
+/-- sufficiency already proved implies the LHS part, so on LHS rows the closed-form condition is **exactly** admissibility's
+requirement -/
+theorem datesEquationsCond_lhs_of_full (eqs : List (Equation β)) (cols : List Int) (h : DatesEquationsCond eqs cols) :
+    DatesEquationsCondLhs eqs cols :=
+  fun p hp q hq tok htok hrow t ht ht' => h p hp q hq tok htok (by simp [Equation.writeRows, hrow]) t ht ht'
+
+end converse
+
+/-! ## 12. Assembly of the returned databox (`target_db | out_db`) -/
+
+section merge
+variable {κ ν : Type} [DecidableEq κ]
+
+/-- **fresh results override the target, every other name is carried over**: looking a name up in the returned databox gives
+the (last) value the simulation produced under that name if there is one, and otherwise what the target held -/
+theorem merge_lookup (target out : Dict κ ν) (k : κ) :
+    (mergeOutput target out).lookup k = (Dict.last? out k).or (target.lookup k) :=
+  Dict.lookup_update target out k
+
+/-- a name the simulation produced (output names are distinct) comes out with the simulated series -/
+theorem merge_fresh_wins (target out : Dict κ ν) (k : κ) (v : ν) (hu : out.Pairwise (fun a b => a.1 ≠ b.1))
+    (h : out.lookup k = some v) : (mergeOutput target out).lookup k = some v := by
+  rw [merge_lookup, Dict.last?_eq_lookup out k hu, h]; rfl
+
+/-- a name the simulation did not produce is carried over from the target unchanged -/
+theorem merge_carries_over (target out : Dict κ ν) (k : κ) (h : ∀ p ∈ out, p.1 ≠ k) :
+    (mergeOutput target out).lookup k = target.lookup k := by
+  have : Dict.last? out k = none := by
+    induction out with
+    | nil => rfl
+    | cons p rest ih =>
+      rw [Dict.last?, ih (fun q hq => h q (List.mem_cons_of_mem _ hq))]
+      simp [h p List.mem_cons_self]
+  rw [merge_lookup, this]; rfl
+
+/-- the names of the target come first, in the target's order; new names follow -/
+theorem merge_keeps_target_order (target out : Dict κ ν) :
+    target.map (·.1) <+: (mergeOutput target out).map (·.1) := Dict.keys_prefix_update target out
+
+/-- non-vacuity: target {a:1, x:2}, fresh results {x:9, r:7} -/
+example : mergeOutput [("a", 1), ("x", 2)] [("x", 9), ("r", 7)] = [("a", 1), ("x", 9), ("r", 7)] := by decide
+
+end merge
+
+/-- non-vacuity of the converses: the incomparability examples satisfy / violate the LHS conditions as expected -/
+example : DatesEquationsCondLhs lagOfLater [1, 2] ∧ ¬ EquationsDatesCondLhs lagOfLater [1, 2] := by
+  unfold DatesEquationsCondLhs EquationsDatesCondLhs; decide
+
 end IrisVerif.C17
